@@ -26,7 +26,61 @@ REMOTE_KINDS = ("raise", "kill_in_handler", "kill_after_reply", "torn_reply", "r
 C14_PROFILES = ("zero", "uniform", "per_sim", "heavy", "slow_req", "ties", "slowlink", "slowlink")
 
 
+def make_start_case(seed: int, tier: str) -> Dict[str, Any]:
+    """A simulator process that is started with 'cmd' but never connects back: start() must fail
+    after start_timeout, and the listening socket mosaik opened for it must not stay behind."""
+    rng = random.Random(h64(seed, "c14start"))
+    sc = gen.gen_core(seed, tier, transport_mix="mixed", max_sims=3)
+    sc["config"]["debug"] = False
+    sc["config"]["iteration_cost"] = 0.0
+    idx = rng.randrange(len(sc["sims"]))
+    sc["sims"][idx]["transport"] = "cmd"
+    sc["config"]["mosaik_config"] = {"start_timeout": rng.choice([0.5, 2.0, 10.0])}
+    return {"start_phase": True, "scenario": sc, "schedule": {"profile": rng.choice(["zero", "uniform", "ties"]),
+                                                             "seed": rng.randrange(1 << 30)},
+            "never_connects": idx}
+
+
+def run_start_case(case, prop) -> Dict[str, Any]:
+    sc, sp, idx = case["scenario"], case["schedule"], case["never_connects"]
+    out = {"runs": 1, "violations": [], "stats": {"start_phase_cases": 1}, "fps": set(), "ntfps": set(),
+           "scen": {h64(json.dumps(sc, sort_keys=True))}, "sim_time": 0.0, "steps": 0, "aborted": 1, "completed": 0}
+    r = runner.execute(sc, sp, hooks={"pre": lambda run: run.fault_state.__setitem__("never_connect", {idx})})
+    hd = digest(r.hist)
+    sid = sc["sims"][idx]["sid"]
+    oc = r.outcome
+    feats = {"fault": "never_connects", "func": "start", "transport": "remote"}
+    viols = []
+    out["fps"].add(pcore.fingerprint(r.hist))
+    out["ntfps"].add(h64(next(iter(out["scen"])), "start"))
+    out["stats"]["fault_never_connects"] = 1
+    if oc[0] in ("deadlock", "livelock", "hang"):
+        viols.append({"kind": "run_hangs", "features": dict(feats, how=oc[0], waiting_for_dead_simulator=True),
+                      "detail": {"outcome": list(oc)}})
+    elif not (oc[0] == "start_error" and oc[1] == sid):
+        viols.append({"kind": "failure_swallowed", "features": feats, "detail": {"outcome": list(oc)[:4]}})
+    else:
+        t_out = sc["config"]["mosaik_config"]["start_timeout"]
+        q = next((i for i, h in enumerate(r.hist) if h[0] == "start_result" and h[1] == sid), None)
+        if q is not None and r.vt[q] > t_out + 1.0:
+            viols.append({"kind": "run_not_prompt", "features": feats,
+                          "detail": {"t_start_failed": r.vt[q], "start_timeout": t_out}})
+        servers = r.run.fault_state.get("servers", [])
+        if any(not s_.closed for s_ in servers):
+            viols.append({"kind": "listening_socket_left_open", "features": feats,
+                          "detail": {"servers": len(servers), "open": sum(1 for s_ in servers if not s_.closed),
+                                     "outcome": list(oc)[:4]}})
+    for v in viols:
+        v["digest"] = hd
+        v["case"] = case
+    out["violations"] = viols
+    out["digest"] = hd
+    return out
+
+
 def make_case(seed: int, tier: str, prop: str, opts=None) -> Dict[str, Any]:
+    if h64(seed, "c14family") % 100 < 3:
+        return make_start_case(seed, tier)
     rng = random.Random(h64(seed, "c14"))
     if rng.random() < 0.25:
         # plant + agents issuing set_data/get_data requests while they are stepped (requests of
@@ -242,6 +296,8 @@ def check_one(sc, sp, f, last_req=None, f2=None):
 
 
 def run_case(case, prop) -> Dict[str, Any]:
+    if case.get("start_phase"):
+        return run_start_case(case, prop)
     sc = case["scenario"]
     sp = case["schedule"]
     rm = RM(sc)
